@@ -2166,6 +2166,9 @@ def eqn2_helpers(e, bitslice=False, widening=False):
         # if e:= (l [|*/] 1) then e:= l
         elif e.r.value == 1 and e.op.symbol in (OP_MUL, OP_MUL2, OP_DIV):
             return e.l
+        # if e:= (l [>> <<] cst) with cst>=size then e:= 0
+        elif e.op.symbol in (OP_LSL, OP_LSR) and e.r.value >= e.l.size:
+            return cst(0, e.size)
         # if e:= (l & mask) then e:= l[i1:i2]
         elif e.op.symbol == OP_AND and ismask(e.r.value):
             i1, i2 = get_lsb_msb(e.r.value)
